@@ -311,12 +311,14 @@ func (s *upStream) AppendData(ctx context.Context, data buffer.IoBuffer, end boo
 	if end {
 		atomic.StoreUint32(&s.a.sent, 1)
 	}
+	s.a.afterUpSend(end) // proxy8: the call may be held here (c03p8_uphold.go)
 	return nil
 }
 
 func (s *upStream) AppendTrailers(ctx context.Context, trailers api.HeaderMap) error {
 	s.a.ex.add(fmt.Sprintf("ut:%d", s.a.Index))
 	atomic.StoreUint32(&s.a.sent, 1)
+	s.a.afterUpSend(true) // proxy8: the call may be held here (c03p8_uphold.go)
 	return nil
 }
 
